@@ -67,7 +67,7 @@ Qed.
 
 (** [apply] for the propositional rows of the table, reordering disabled *)
 Theorem apply_with_spec tbl op u v w s t r s' :
-  Inv s → last_len s = None →
+  Inv s → last_len s = None → max_nodes s = None →
   valid s u → ovalid s v → ovalid s w →
   arity_ok op v w = true →
   find_template tbl op = Some t → avail (template_uses t) v w →
@@ -77,7 +77,7 @@ Theorem apply_with_spec tbl op u v w s t r s' :
     ∀ a, Some (D s' x a) =
          template_sem t (D s u a) (D s (default 0%Z v) a) (D s (default 0%Z w) a).
 Proof.
-  intros HI Hoff Hu Hv Hw Har Hft Hav Hnq. unfold apply_with, ensure.
+  intros HI Hoff Hmx Hu Hv Hw Har Hft Hav Hnq. unfold apply_with, ensure.
   rewrite Har. rewrite (bind_ok _ _ s tt s) by done. cbn [bind get].
   rewrite (proj2 (mem_valid s u) Hu). rewrite (bind_ok _ _ s tt s) by done.
   assert (Hmv : match v with Some v => mem v s | None => true end = true).
